@@ -33,7 +33,8 @@ RULE = ("channel objects {TdlChannel SISO, TdlMimoChannel, SuChannel (with / "
         "fft sizes (taps fold onto the grid); single-link path loss includes "
         "exactly 0. "
         "In the multiuser slots some (or all) transmitters are silent (all-zero rows); every link's reported response must be the one of THIS transmission (sample count checked before use). "
-        "Slices with negative bounds; transmissions whose response nobody queries between the observed ones. ")
+        "Slices with negative bounds; transmissions whose response nobody queries between the observed ones. "
+        "3 % of the time-domain inputs are whole frames of 4000-40000 samples. ")
 ASSUMPTIONS = ["for channel memory >= fft size the DFT of the reported response is "
                "the defining sum over ALL taps, sum_d h[d] exp(-2 pi i k d / fft) "
                "(taps fold onto the fft grid; the same reading C02's exact "
@@ -220,6 +221,8 @@ def transmit_and_check(ctx, ch, get_resp, kind, mimo, rng, tag, pos, pathloss=No
     if domain == "time":
         N = int(rng.choice([1, 2, 3, 7, 30, 100, 300])) if rng.random() < 0.5 else \
             int(rng.integers(1, 120))
+        if rng.random() < 0.03 and D <= 16:
+            N = int(rng.integers(4000, 40000))        # a whole frame in one call
         x = rand_c(rng, nin, N) if mimo else rand_c(rng, N)
         if mimo and nin == 1 and rng.random() < 0.5:
             x = x[0]                                 # 1-D signal for a single input antenna
